@@ -307,6 +307,9 @@ static int HandleZRLETile(rfbClient* client,
 				mask=(1<<bpp)-1,
 				divider=(8/bpp);
 
+			/* types 17..127 are unused by the protocol; their 8-bit indices would exceed palette[128] */
+			if(type>16)
+				return -6;
 			if(1+type*REALBPP/8+((w+divider-1)/divider)*h>buffer_length)
 				return -5;
 
